@@ -450,6 +450,8 @@ func c10Run(k *fw.K, actions []c08action, scribble bool) (h *c08hist, ex *c10exe
 				ok = h.doReject(a.Instr.Dim, a.Instr.In[0], a.Instr.In[1])
 			case "adopt-gradient":
 				ok = h.doAdopt(a.Target, a.Flag)
+			case "sgd":
+				ok = h.doSGD(a.Target, a.Flag)
 			}
 			if !ok {
 				return h, ex, false
@@ -476,6 +478,16 @@ func c10Run(k *fw.K, actions []c08action, scribble bool) (h *c08hist, ex *c10exe
 			}
 		case len(h.nodes) >= 3 && q == 3 && k.Rng.Intn(3) == 0:
 			ok = h.doResetAndRepeat()
+		case len(h.nodes) >= 3 && q == 3: // an optimizer step (sometimes with learning rate 0) on a tensor that holds a gradient
+			var c []int
+			for i, n := range h.nodes {
+				if n.grad != nil && !n.cmpOfSpent {
+					c = append(c, i)
+				}
+			}
+			if len(c) > 0 {
+				ok = h.doSGD(c[k.Rng.Intn(len(c))], k.Rng.Intn(3) == 0)
+			}
 		default:
 			if in, good := c10GenOp(h); good {
 				ok = h.doOp(in)
